@@ -38,22 +38,16 @@ TRUSTED = [
     "provenance of the real rng is C14's subject",
 ]
 UNPROVED = [
-    "now THEOREMS of DPL.Properties.C17 (real-number model, input draws with the ideal laws): noise_norm_law / "
-    "fit_noise_norm_law (noisy_norm = sum of four Gamma(d/4) draws ~ Gamma(shape d, rate eps'/(2 s)) = scale 2 s/eps', both "
-    "branches, also at the fit's call site), noise_vector_norm_law (the same for the Euclidean norm |b| of the model's "
-    "noise vector, for every non-degenerate outcome of the direction draws), direction_coordinate_law / "
-    "direction_coordinates_iid (the direction vector is d i.i.d. N(0,1)), direction_rotation_invariant / "
-    "direction_on_sphere / sphere_invariant_measure_unique / direction_uniform (b/|b| is uniform on the unit sphere: "
-    "rotation-invariant, carried by the sphere, and such a probability measure is unique = the normalised surface "
-    "measure), noise_vector_law / fit_noise_vector_law (b ~ r u with u uniform on the sphere and r ~ Gamma(d, rate "
-    "eps'/(2 s)) independent; independence is by construction: norm and direction come from separate draws, i.e. a "
-    "product measure on the inputs)",
-    "still validated only statistically: that the Python rng's gammavariate(d/4, scale) and normalvariate(0, 1) have "
-    "the Gamma(d/4, scale) / N(0,1) laws and are independent from call to call (the theorems take Mathlib's gammaMeasure "
-    "and gaussianReal product measures as the law of the draws), and that floating-point evaluation does not distort "
-    "them (validated: KS distance of the real Vector sampler's |b|/scale against Gamma(d,1), of each coordinate of "
+    "that the Python rng's gammavariate(d/4, scale) and normalvariate(0, 1) have the Gamma(d/4, scale) / N(0,1) laws and "
+    "are independent from call to call, and that floating-point evaluation does not distort them: validated only "
+    "statistically (KS distance of the real Vector sampler's |b|/scale against Gamma(d,1), of each coordinate of "
     "b/|b| against its Beta marginal; DKW threshold, false-alarm < 1e-14 per test; also end-to-end through "
-    "LogisticRegression.fit)",
+    "LogisticRegression.fit). GIVEN ideal draws (Mathlib's gammaMeasure / gaussianReal product measures) the law of the "
+    "noise vector is now proved: noise_norm_law / fit_noise_norm_law / noise_vector_norm_law (|b| ~ Gamma(shape d, rate "
+    "eps'/(2 s)) = scale 2 s/eps', both branches, also at the fit's call site), direction_coordinates_iid, "
+    "direction_rotation_invariant, direction_on_sphere, sphere_invariant_measure_unique, direction_uniform (b/|b| is "
+    "the normalised surface measure of the unit sphere), noise_vector_law / fit_noise_vector_law (b ~ r u, u uniform on "
+    "the sphere, r ~ Gamma(d, rate eps'/(2 s)) independent — by construction: separate draws)",
     "the vector law is stated in EuclideanSpace R^d and tied to the model's List-valued vecNoise pointwise "
     "(direction_model_bridge, noise_vector_model_bridge); no measure is constructed on lists",
 ]
